@@ -172,6 +172,15 @@ def model_exe():
     srcs += [os.path.join(OCAML, 'driver.ml'), os.path.join(OCAML, 'build.sh')]
     newest = max(os.path.getmtime(s) for s in srcs)
     if not os.path.exists(exe) or os.path.getmtime(exe) < newest:
+        # Extract.v needs the compiled definition files it imports (a thorough run starts from `make clean` and has
+        # built only what the property's theorems depend on)
+        ex = open(os.path.join(COQ, 'Extract.v')).read()
+        mods = []
+        for m in re.finditer(r'From MD Require Import ([^.]*)\.', ex):
+            mods += m.group(1).split()
+        ok, log = coq_make([m + '.vo' for m in mods])
+        if not ok:
+            raise BuildError('definition files needed by the extraction do not build:\n' + log[-2000:])
         r = sh([os.path.join(OCAML, 'build.sh')], timeout=1200)
         if r.returncode != 0:
             raise BuildError('extraction / model build failed:\n' + (r.stdout + r.stderr).decode(errors='replace')[-3000:])
